@@ -89,6 +89,17 @@ def run(chk):
         seen.add(k)
         jobs.append(scenario(b["recs"], KINDS[len(jobs) % len(KINDS)], rng.randrange(1 << 30), rng.choice([4, 6]),
                              opts=rng.choice([(), (), ("-m",), ("-m", "443:9443"), ("-a",)])))
+    # reordered / duplicated delivery (Reasm.tla schedules): a record whose carriers arrive around another record's packet is still re-split
+    # into at most as many segments as packets carried it
+    from checks import c05
+    for st in [(1, 2), (2, 1, 1), (2, 1)]:
+        bl = c05.gen_behaviours(chk, st, dict(MaxHeld="2", MaxDup="1"), 20 if quick else 300, seed=chk.seed)
+        rng.shuffle(bl)
+        for i, b in enumerate(bl[: 40 if quick else 800]):
+            sc = c05.scenario(b, st, c05.KINDS[i % len(c05.KINDS)], rng.randrange(1 << 30))
+            if sc is not None:
+                sc["opts"] = []
+                jobs.append(sc)
     # inputs outside what C01 claims (TLS 1.3 KeyUpdate, HelloRetryRequest, renegotiation, data after an alert): whatever is exported for
     # them, the file must be well-formed and the run must not abort ("whatever the input"); their content is not judged here
     for i in range(60 if quick else 1200):
@@ -110,7 +121,8 @@ def run(chk):
             raise Exception("replay failed in the harness: " + res["machinery"])
         chk.evaluations += 1
         recs = [(a[0], a[1]) for a in res["sc"]["conns"][0]["app"]]
-        chk.distinct.add(json.dumps([res["sc"]["conns"][0].get("cuts"), recs, res["sc"]["conns"][0].get("ku_at"), res["sc"]["conns"][0].get("reneg_at")]))
+        chk.distinct.add(json.dumps([res["sc"]["conns"][0].get("cuts"), recs, res["sc"]["conns"][0].get("ku_at"), res["sc"]["conns"][0].get("reneg_at"),
+                                     (res["sc"]["conns"][0].get("sched") or {}).get("hist")]))
         chk.sample(dict(records=[dict(d=d, n=n) for d, n in recs], opts=res["sc"]["opts"]), limit=3)
         if res["crashed"]:
             chk.violation("run aborted: " + res["exc"].strip().splitlines()[-1], dict(scenario=res["sc"]))
